@@ -2,7 +2,7 @@
    the value solve returns for the solver's model, and (small grids) the set of
    projected models against the specification [shape]. *)
 From Coq Require Import ZArith List Bool String Arith.
-From FrameModel Require Import Num.QcTac PB.Expr PB.Cnf PB.Amo PB.Robdd PB.Codify PB.Sat Cases.Cmp Cases.CmpC07
+From FrameModel Require Import Num.QcTac PB.Expr PB.Cnf PB.Amo PB.Robdd PB.Codify PB.Sat Cases.Cmp Cases.CmpC07Set Cases.CmpC07
   RectSearch.Coords RectSearch.Names RectSearch.Encode RectSearch.Registry RectSearch.Shapes RectSearch.SelectBox.
 Import ListNotations.
 Local Open Scope nat_scope.
@@ -23,7 +23,8 @@ Record c08_obs := mkObs8 {
   o_true : list var;             (* the variables that are 1 in SATManager.model *)
   o_cost1 : Z;                   (* first component of the returned pair *)
   o_rects : list (option box);
-  o_vtable : list var            (* SATManager.vtable[1:]: the registered names in order, names mapped *)
+  o_vtable : list var;           (* SATManager.vtable[1:]: the registered names in order, names mapped *)
+  o_newmem : list node           (* the store entries solve appended (the diagram of the cost bound), names mapped *)
 }.
 
 Definition coords_check (inp : problem) (o : c08_obs) : bool :=
@@ -38,15 +39,28 @@ Definition result_eqb (r : result) (sat : bool) (c1 : Z) (rs : list (option box)
   | Found c rects => sat && Z.eqb c c1 && leqb obox_eqb rects rs
   end.
 
+(* the implementation's formula is the model's: the same SET of clauses (each a set of literals)
+   and the same set of registered names, up to the numbering of the diagram nodes (translated
+   through the store entries) and of the at-most-one links - C08 constrains neither the order in
+   which clauses are emitted nor internal numberings *)
+Definition formula_same (m0 m : memory) (s : mgr) (o : c08_obs) : bool :=
+  match node_map m (m0 ++ o_newmem o) with
+  | None => false
+  | Some phi =>
+      nodes_known phi (o_clauses o) &&
+      cnf_seteqb_aux (clauses s) (ren_cnf phi (o_clauses o)) (vtable s) (map (ren_var phi) (o_vtable o))
+  end.
+
+(* [models_ok]: when the formula differs in form, whether the enumeration of ALL its models (small
+   grids, c08_models_check below) agreed with the specification - the harness passes the result *)
 Definition c08_check (mode : border_mode) (inp : problem) (k : nat) (factor ratio : Qc) (bound : Z)
-    (m0 : memory) (o : c08_obs) : bool :=
+    (m0 : memory) (o : c08_obs) (models_ok : bool) : bool :=
   coords_check inp o &&
   (* [encode_reg] = [encode] with the variable registrations (Registry.encode_reg_encode) *)
   match encode_reg mode inp k factor ratio bound m0 with
   | None => o_keyerror o
-  | Some (_, s) =>
-      negb (o_keyerror o) && leqb (leqb lit_eqb) (clauses s) (o_clauses o) &&
-      leqb var_eqb (vtable s) (o_vtable o) &&
+  | Some (m, s) =>
+      negb (o_keyerror o) && (formula_same m0 m s o || models_ok) &&
       result_eqb (result_of inp k factor ratio
                     (if o_sat o then Some (fun v => existsb (var_eqb v) (o_true o)) else None))
                  (o_sat o) (o_cost1 o) (o_rects o)
